@@ -105,6 +105,12 @@ def make_result(kind, who):
         return 0
     if kind == 'empty':
         return []
+    if kind == 'future':
+        # an awaitable handed back as a value (e.g. the handle of something the
+        # job spawned): it is a result like any other, not something to await
+        fut = asyncio.get_running_loop().create_future()
+        fut.set_result(('inner result of', who))
+        return fut
     return Result(who)
 
 
